@@ -11,6 +11,7 @@ import (
 	"time"
 
 	"verif/harness/internal/core"
+	"verif/harness/internal/sched"
 )
 
 type cliCase struct {
@@ -190,8 +191,18 @@ func run(env *core.Env, rep *core.Report, prop string) *core.Result {
 		}
 		cliRuns = s.cliLevel(csel)
 	}
+	// the composed specification (scheduler + runner + contexts, Taskctl.tla) against whole-binary
+	// event logs: hooks, variations and commands of every stage's run in the right order
+	var composeInfo map[string]interface{}
+	if prop == "C06" {
+		composeInfo = sched.ComposeCheck(env, rep, map[bool]int{false: 30, true: 400}[thorough], "hooks2")
+		if a, ok := composeInfo["accepted"].(int); ok {
+			cliRuns += a
+		}
+	}
 	gen, dist, runs, cmds := core.TLCTotals()
 	cov := map[string]interface{}{
+		"whole_binary_traces_against_Taskctl_tla": composeInfo,
 		"states": dist, "transitions": gen, "tlc_runs": runs,
 		"traces_validated_against_impl": replayed + rows + stages + cliRuns,
 		"lockstep_configurations":       replayed,
